@@ -186,6 +186,14 @@ def Resp.setHeader (r : Resp) (k v : Bytes) : Resp := { r with headers := hSet r
 structure HandlerOut where
   res : Resp
   threw : Bool := false
+  /-- what was thrown is not a `std::exception` (matters only for the subclass seams; the handler safety net has `catch (...)`) -/
+  nonStd : Bool := false
+
+/-- what a subclass seam (a virtual hook called by `processHttpRequest`) does: return a value, or throw — a `std::exception`
+    (`std := true`) or anything else -/
+inductive Seam (α : Type) where
+  | ret (a : α)
+  | threw (std : Bool)
 
 abbrev Handler := Req → Resp → HandlerOut
 
@@ -387,10 +395,10 @@ def Env.up : Env := {}
 structure Server where
   routes : Routes Handler := []
   defaultHandler : Option Handler := none
-  /-- `onUpgradeRequest` (virtual): `some res` = the subclass accepted the upgrade and filled `res` -/
-  upgradeHook : Req → Option Resp := fun _ => none
+  /-- `onUpgradeRequest` (virtual): `ret (some res)` = the subclass accepted the upgrade and filled `res` -/
+  upgradeHook : Req → Seam (Option Resp) := fun _ => .ret none
   /-- `onResponseSuppressed` (virtual) -/
-  suppressHook : Req → Resp → Bool := fun _ _ => false
+  suppressHook : Req → Resp → Seam Bool := fun _ _ => .ret false
 
 /-- what one call of `processHttpRequest` hands to the engine -/
 inductive Outcome where
@@ -533,40 +541,77 @@ def applyDecision (req : Req) (d : Decision Handler) : Req :=
     { req with params := caps.foldl (fun m kv => mapSet m kv.1 kv.2) req.params, pathRest := rest }
   | _ => req
 
-/-- mirrors `processHttpRequest(sid, requestData)` -/
-def process (srv : Server) (env : Env) (data : Bytes) : Outcome :=
+/-! ### the engine calls of one `processHttpRequest`, arm by arm -/
+
+/-- a call `processHttpRequest` makes on the transport -/
+inductive Call where
+  | sendAsync (wire : Bytes)
+  | close
+  deriving DecidableEq, Repr
+
+/-- the error arm (the `catch` that closes the function's `try`): guarded Send of the error response, then — whatever the
+    Send's completion said — the guarded Close -/
+def errorArm (env : Env) (status : Nat) : List Call :=
+  if !env.upAtSend then []
+  else .sendAsync (errorWire status) :: (if env.upAtClose then [.close] else [])
+
+/-- a subclass seam threw: a `std::exception` reaches the error arm as a 500; anything else does so only if the arm is
+    `catch (...)` (repaired code) — otherwise it leaves `processHttpRequest` and no call is made at all -/
+def seamThrew (env : Env) (std : Bool) : List Call :=
+  if std || Gen.HttpRespond.errCatchesAll then errorArm env Gen.HttpRespond.errDefaultStatus else []
+
+/-- the normal send block: guarded Send; Close if the completion reported failure or the response asked for close -/
+def normalSend (env : Env) (wire : Bytes) (shouldClose : Bool) : List Call :=
+  if !env.upAtSend then []
+  else .sendAsync wire :: (if (!env.enqueueOk || shouldClose) && env.upAtClose then [.close] else [])
+
+/-- mirrors the control flow of `processHttpRequest(sid, requestData)`: the transport calls it makes, in order, and whether
+    it returned through the suppression exit -/
+def processCalls (srv : Server) (env : Env) (data : Bytes) : List Call × Bool :=
   if env.shutdownAtEntry then
-    if env.transportAtEntry then
-      (if env.enqueueOk then .respond shutdownWire true else .sendFailed true)
-    else .nothing
+    -- shutdown arm: both blocks test `_transport` only; the Close does not depend on the Send's completion
+    (if env.transportAtEntry then [.sendAsync shutdownWire, .close] else [], false)
   else
     match fromWireFormat data with
     | .error e =>
       let status := match e with
         | .request s => s
         | .other => Gen.HttpRespond.errDefaultStatus
-      if !env.upAtSend then .nothing
-      else if env.enqueueOk then .respond (errorWire status) env.upAtClose
-      else .sendFailed env.upAtClose
+      (errorArm env status, false)
     | .ok p =>
       let req0 := mkReq p
-      let upgraded : Option Resp := if hasUpgradeHeader req0.headers then srv.upgradeHook req0 else none
+      let upgraded : Seam (Option Resp) := if hasUpgradeHeader req0.headers then srv.upgradeHook req0 else .ret none
       match upgraded with
-      | some ures =>
-        if !env.upAtSend then .nothing
-        else if !env.enqueueOk then .sendFailed false
-        else
-          let h := hSet ures.headers (ascii "Server") (ascii Gen.HttpRespond.serverHeader)
-          -- the completion lambda of this send ignores the result; no close on this path
-          .respond (toWire ures.status (statusText ures.status) h ures.body) false
-      | none =>
+      | .threw std => (seamThrew env std, false)
+      | .ret (some ures) =>
+        -- the completion lambda of this send ignores the result; no close on this path
+        (if !env.upAtSend then []
+         else [.sendAsync (toWire ures.status (statusText ures.status)
+                 (hSet ures.headers (ascii "Server") (ascii Gen.HttpRespond.serverHeader)) ures.body)], false)
+      | .ret none =>
         let d := classifyRequest srv.routes srv.defaultHandler req0.method req0.path (splitPath req0.path)
         let req := applyDecision req0 d
         let (res, ranHandler) := dispatch d req
-        if ranHandler && (res.suppress || srv.suppressHook req res) then .suppressed
+        if ranHandler && res.suppress then ([], true)
         else
-          let (wire, shouldClose) := buildWire env req res
-          sendBlock env wire shouldClose
+          -- `ranHandler && (res._suppressSend || onResponseSuppressed(...))`: the seam is consulted only if a handler ran
+          match (if ranHandler then srv.suppressHook req res else .ret false) with
+          | .threw std => (seamThrew env std, false)
+          | .ret true => ([], true)
+          | .ret false =>
+            let (wire, shouldClose) := buildWire env req res
+            (normalSend env wire shouldClose, false)
+
+/-- what the engine makes of the calls: `enqueueOk` decides whether a `sendAsync` became a Send command -/
+def outcomeOf (env : Env) (t : List Call × Bool) : Outcome :=
+  match t.1 with
+  | [] => if t.2 then .suppressed else .nothing
+  | [.sendAsync w] => if env.enqueueOk then .respond w false else .sendFailed false
+  | [.sendAsync w, .close] => if env.enqueueOk then .respond w true else .sendFailed true
+  | _ => .nothing     -- never happens: `processCalls_shape`
+
+/-- `processHttpRequest` as seen from the engine -/
+def process (srv : Server) (env : Env) (data : Bytes) : Outcome := outcomeOf env (processCalls srv env data)
 
 /-- did the request reach user code (a handler or the upgrade hook)?  Used by the driver only: the harness can flip
     `_shutdown` between entry and the send block only from inside user code. -/
